@@ -17,6 +17,7 @@
 //    the slots account for; refused operations change nothing; after the last release nothing is alive.
 #include "vp.hpp"
 #include "lifetrack.hpp"
+#include "notify.h"  // mptio: mpt_input_reference_traits()
 
 using namespace vp;
 using namespace mpt;
@@ -72,6 +73,9 @@ struct Kind {
   virtual void cleanup() {}                             // release what the harness itself still holds
   virtual bool extra_op(Ctx &c) { return false; }       // kind specific operation (drop a harness held reference)
   virtual bool can_fail_init() { return false; }
+  virtual bool first_visit(CBuf *) { return true; }     // nested buffers: tally the elements of a buffer only once
+  virtual void note_handle(CBuf *) {}                   // a harness array handle names this buffer
+  virtual bool counts_buffer(CBuf *) { return false; }  // the kind checks the reference count of this buffer itself (elements name it too)
 };
 
 struct TokKind : Kind {
@@ -93,6 +97,28 @@ struct ArrayKind : Kind {
   uint64_t toks[R + 1][2];
   bool held[R + 1] = {false};
   long cnt[R + 1];
+  // second level: buffers of array elements created by the "nest" operation, named by elements (value 100 + index)
+  // and, after a descent (mpt_array_clone(handle, element of the handle's own buffer)), by handles
+  struct Mid { CBuf *b; std::vector<uint32_t> vals; long elems, handles; bool visited; };
+  std::vector<Mid> mids;
+  int mid_index(CBuf *b) { for (int i = (int)mids.size() - 1; i >= 0; i--) if (mids[i].b == b) return i; return -1; }
+  // new mid level buffer with the given element values; the caller holds the only reference
+  CBuf *new_mid(const std::vector<uint32_t> &vals) {
+    buffer *b = _mpt_buffer_alloc(vals.size() * size, 0);
+    b->_content_traits = traits;
+    for (size_t i = 0; i < vals.size(); i++) make((uint8_t *)(b + 1) + i * size, vals[i]);
+    b->_used = vals.size() * size;
+    mids.push_back(Mid{(CBuf *)b, vals, 0, 0, false});
+    return (CBuf *)b;
+  }
+  bool first_visit(CBuf *b) override {
+    int m = mid_index(b);
+    if (m < 0) return true;
+    if (mids[m].visited) return false;
+    return mids[m].visited = true;
+  }
+  void note_handle(CBuf *b) override { int m = mid_index(b); if (m >= 0) mids[m].handles++; }
+  bool counts_buffer(CBuf *b) override { return mid_index(b) >= 0; }
   ArrayKind() : Kind("array", mpt_array_traits()) {
     for (int r = 1; r <= R; r++) {
       buffer *b = _mpt_buffer_alloc(2 * 16, 0);
@@ -112,7 +138,7 @@ struct ArrayKind : Kind {
   }
   void make(void *p, uint32_t v) override {
     CObj<array> src;
-    cbuf(src) = v ? buf[v] : 0;  // a handle value naming the inner buffer; init() takes its own reference
+    cbuf(src) = v >= 100 ? mids[v - 100].b : v ? buf[v] : 0;  // a handle value naming the inner buffer; init() takes its own reference
     traits->init(p, v ? src.get() : 0);
   }
   bool read(const void *p, uint32_t &v, std::string &why) override {
@@ -124,13 +150,29 @@ struct ArrayKind : Kind {
         v = r;
         return true;
       }
+    int m = mid_index(b);
+    if (m >= 0) {
+      if (__asan_address_is_poisoned(b)) { why = "references nested buffer " + std::to_string(m) + " which was already freed"; return false; }
+      v = 100 + m;
+      return true;
+    }
     why = "holds an unknown buffer pointer";
     return false;
   }
-  void tally_begin() override { for (int r = 0; r <= R; r++) cnt[r] = 0; }
+  void tally_begin() override {
+    for (int r = 0; r <= R; r++) cnt[r] = 0;
+    for (auto &m : mids) { m.elems = m.handles = 0; m.visited = false; }
+  }
   void tally(const void *p) override {
     CBuf *b = *(CBuf *const *)p;
     for (int r = 1; r <= R; r++) if (b && b == buf[r]) cnt[r]++;
+    int m = b ? mid_index(b) : -1;
+    if (m >= 0) {
+      mids[m].elems++;
+      // the elements of the nested buffer hold references of their own (counted once per buffer)
+      if (!__asan_address_is_poisoned(b) && first_visit(b))
+        for (size_t e = 0; e < b->used / size; e++) tally(slot(b, e, size));
+    }
   }
   void tally_end(Ctx &c, const char *op) override {
     for (int r = 1; r <= R; r++) {
@@ -144,6 +186,23 @@ struct ArrayKind : Kind {
         W->trk.tally_token(toks[r][1]);
         bool shared = flags_of(buf[r]) & BufferShared;
         VP_CHECK(c, shared == (expect > 1), "resource-refcount", "after %s: inner buffer %d should have %ld reference(s) but reports %s", op, r, expect, shared ? "shared" : "not shared");
+      }
+    }
+    for (size_t i = 0; i < mids.size(); i++) {
+      Mid &m = mids[i];
+      bool newest = mid_index(m.b) == (int)i;
+      long expect = newest ? m.elems + m.handles : 0;
+      bool gone = __asan_address_is_poisoned(m.b);
+      c.logf("    nested buffer %zu: %ld element reference(s) + %ld handle(s) -> %s", i, m.elems, m.handles, gone ? "freed" : "alive");
+      if (!newest) continue;
+      VP_CHECK(c, !(gone && expect), "resource-released-early", "after %s: nested buffer %zu is referenced %ld time(s) but was already freed", op, i, expect);
+      VP_CHECK(c, gone || expect, "resource-not-released", "after %s: nested buffer %zu has no reference left but is still allocated", op, i);
+      if (!gone) {
+        bool shared = flags_of(m.b) & BufferShared;
+        VP_CHECK(c, shared == (expect > 1), "resource-refcount", "after %s: nested buffer %zu should have %ld reference(s) but reports %s", op, i, expect, shared ? "shared" : "not shared");
+        uintptr_t probe = m.b->vptr->addref(m.b);  // exact count: addref returns the raised counter, the probe is taken back
+        m.b->vptr->unref(m.b);
+        VP_CHECK(c, probe == (uintptr_t)expect + 1, "resource-refcount", "after %s: nested buffer %zu should have %ld reference(s), an additional addref returned %lu", op, i, expect, (unsigned long)probe);
       }
     }
   }
@@ -200,6 +259,7 @@ struct MetaUser : Kind {
 
 struct MetaRefKind : MetaUser {
   MetaRefKind() : MetaUser("metaref", mpt_meta_reference_traits()) {}
+  MetaRefKind(const char *n, const type_traits *t) : MetaUser(n, t) {}  // other reference traits with the same element layout
   uint32_t draw(Ctx &c) override { return draw_obj(c); }
   void make(void *p, uint32_t v) override {
     void *src = v ? obj[v] : 0;
@@ -419,8 +479,10 @@ struct Sim {
       bool first = true;
       for (int j = 0; j < nseen; j++) if (seen[j] == b) first = false;
       std::vector<uint32_t> got;
+      if (libkind) libkind->note_handle(b);  // whatever the content type is now (mpt_array_reserve re-types a private buffer in place)
       if (x.k) {
         size_t S = x.k->size;
+        bool visit = first && x.k->first_visit(b);
         VP_CHECK(c, b->used % S == 0, "partial-element", "after %s: handle %d: used %zu is not a multiple of the element size %zu", op, i, b->used, S);
         for (size_t e = 0; e < b->used / S; e++) {
           uint32_t v = 0;
@@ -428,7 +490,7 @@ struct Sim {
           bool ok = x.k->read(slot(b, e, S), v, why);
           VP_CHECK(c, ok, "dead-element-in-buffer", "after %s: handle %d (%s): slot %zu of %zu %s", op, i, x.k->name, e, b->used / S, why.c_str());
           got.push_back(v);
-          if (first) x.k->tally(slot(b, e, S));
+          if (visit) x.k->tally(slot(b, e, S));
         }
       } else {
         VP_CHECK(c, b->used == 0 || !cmp, "raw-buffer-content", "after %s: handle %d: raw buffer with %zu bytes", op, i, b->used);
@@ -446,7 +508,8 @@ struct Sim {
       }
       // reference count of the buffer itself: shared flag iff more than one handle names it
       bool shared = flags_of(b) & BufferShared;
-      VP_CHECK(c, shared == (users > 1), "buffer-refcount", "after %s: handle %d: buffer is named by %d handle(s) but reports %s", op, i, users, shared ? "shared" : "not shared");
+      if (!(libkind && libkind->counts_buffer(b)))
+        VP_CHECK(c, shared == (users > 1), "buffer-refcount", "after %s: handle %d: buffer is named by %d handle(s) but reports %s", op, i, users, shared ? "shared" : "not shared");
       if (c.verbose()) {
         std::string g;
         for (uint32_t v : got) g += std::to_string(v) + " ";
@@ -528,7 +591,11 @@ struct Sim {
     flags = flags == 0 ? 0 : flags == 1 ? BufferNoCopy : BufferImmutable;
     size_t cap = n * k->size + (c.flip() ? 0 : c.range(0, 3) * k->size);
     c.logf("create h%d: %s x %zu, capacity request %zu, flags %x", (int)(&x - h), k->name, n, cap, flags);
-    buffer *b = _mpt_buffer_alloc(cap, flags);
+    // every fourth element count asks for a memory mapped buffer first (no extra draw); _mpt_buffer_map refuses
+    // on trees where its page size test is inverted, then the heap buffer is used as before
+    buffer *b = (n % 4 == 3) ? _mpt_buffer_map(cap, flags) : 0;
+    if (b) { c.logf("  (memory mapped buffer, size %zu)", ((CBuf *)b)->size); c.label("create:mapped"); }
+    else b = _mpt_buffer_alloc(cap, flags);
     VP_CHECK(c, b, "harness", "allocation failed");
     b->_content_traits = k->traits;
     for (size_t i = 0; i < n; i++) {
@@ -747,7 +814,7 @@ struct Sim {
     obs.viol.raise(c, "reserve");
     if (ret) {
       VP_CHECK(c, (CBuf *)ret == x.b(), "reserve-result", "mpt_array_reserve returned %p, handle holds %p", (void *)ret, (void *)x.b());
-      VP_CHECK(c, x.b()->size >= len, "reserve-result", "reserved %zu bytes, buffer size is %zu", len, x.b()->size);
+      VP_CHECK(c, x.b()->size >= len || (flags_of(x.b()) & BufferMapped), "reserve-result", "reserved %zu bytes, buffer size is %zu", len, x.b()->size);
       if (compatible) {
         // same traits: everything the request covers is kept; alias traits (same finaliser, other object) are a type change
         // for which the documentation ("change buffer content type", "clear incompatible data") promises no content
@@ -796,7 +863,7 @@ struct Sim {
     obs.viol.raise(c, "detach");
     if (nb) {
       cbuf(x.a) = nb;
-      VP_CHECK(c, nb->size >= len, "detach-result", "detach(%zu) returned a buffer of size %zu", len, nb->size);
+      VP_CHECK(c, nb->size >= len || (flags_of(nb) & BufferMapped), "detach-result", "detach(%zu) returned a buffer of size %zu", len, nb->size);
       if (x.k && strict) expect_prefix(x, "detach", std::min(n, len / esz));
       note_detach(x, b, was_shared);
       if (nb != b && !was_shared) c.label("detach:moved");
@@ -941,9 +1008,105 @@ struct Sim {
     sync("command set");
   }
 
+  // arrays of arrays: nested buffers whose only reference is an element, handles that move into such a buffer
+  // (source of mpt_array_clone lives inside the buffer the destination owns), self and sibling sources
+  void op_nested() {
+    ArrayKind *ak = (ArrayKind *)libkind.get();
+    int which = (int)c.weighted({3, 5, 7, 1, 4});
+    if (which == 0) { if (ak->extra_op(c)) sync("harness reference dropped"); return; }
+    Handle &x = pick_handle();
+    int hi = (int)(&x - h);
+    if (!x.b() || x.k != primary) return;
+    size_t n = x.vals.size(), S = primary->size;
+    switch (which) {
+      case 1: {  // nest: a new second level buffer becomes an element of the handle's buffer and is referenced by it only
+        if (ak->mids.size() >= 12) return;
+        std::vector<uint32_t> mv;
+        for (size_t k = c.range(0, 2); k; k--) mv.push_back(ak->draw(c));
+        size_t pos = c.range(0, n);
+        CBuf *before = x.b();
+        bool was_shared = flags_of(before) & BufferShared;
+        CBuf *mb = ak->new_mid(mv);
+        uint32_t v = 100 + (uint32_t)ak->mids.size() - 1;
+        c.logf("nest h%d: new nested buffer %u with %zu element(s) inserted as element %zu (length %zu)", hi, v - 100, mv.size(), pos, n);
+        uint8_t *ret = (uint8_t *)mpt_array_insert(x.a, pos * S, S);
+        note_detach(x, before, was_shared);
+        if (ret) {
+          ak->make(ret, v);
+          x.vals.insert(x.vals.begin() + pos, v);
+          c.label("nested:nest");
+        }
+        mb->vptr->unref(mb);  // the creator lets go: the element holds the only reference (or nobody, when the insert was refused)
+        sync("nest");
+        return;
+      }
+      case 2: {  // descend / sibling: the source of the assignment is an element of the buffer the destination handle names
+        if (!n) return;
+        size_t e = c.pick(n);
+        if (c.chance(176)) for (size_t i = 0; i < n; i++) if (x.vals[(e + i) % n] >= 100) { e = (e + i) % n; break; }  // prefer an element naming a nested buffer
+        uint32_t v = x.vals[e];
+        bool sole = !(flags_of(x.b()) & BufferShared);
+        const array *src = (const array *)slot(x.b(), e, S);
+        c.logf("mpt_array_clone(h%d, element %zu of its own buffer = %s %u) (%s owner)", hi, e, v >= 100 ? "nested buffer" : v ? "inner buffer" : "empty array", v >= 100 ? v - 100 : v, sole ? "sole" : "shared");
+        int r = mpt_array_clone(x.a, src);
+        c.logf("  -> %d", r);
+        obs.viol.raise(c, "descend");
+        if (v >= 100 && x.tr != ak->mids[v - 100].b->traits) {
+          VP_CHECK(c, r < 0, "accepted-invalid", "mpt_array_clone replaced a buffer by one with another content traits object (returned %d)", r);
+          c.label("nested:sibling-type-refused");
+        } else if (v >= 100) {
+          VP_CHECK(c, r == 3 && x.b() == ak->mids[v - 100].b, "clone-result", "moving the handle into the nested buffer its own element names returned %d", r);
+          x.vals = ak->mids[v - 100].vals;
+          nontrivial = true;
+          c.label(sole ? "nested:descend-sole-owner" : "nested:descend-shared-parent");
+        } else if (v) {
+          VP_CHECK(c, r < 0, "accepted-invalid", "mpt_array_clone replaced an array of arrays by a buffer of token elements (returned %d)", r);
+          c.label("nested:sibling-type-refused");
+        } else {
+          VP_CHECK(c, r == 2 && !x.b(), "clone-result", "assigning an empty element of the own buffer returned %d", r);
+          x.vals.clear(); x.k = 0; x.tr = 0;
+          c.label("nested:descend-empty");
+        }
+        sync("descend");
+        return;
+      }
+      case 3: {  // source and destination are the same handle
+        c.logf("mpt_array_clone(h%d, h%d)", hi, hi);
+        int r = mpt_array_clone(x.a, x.a);
+        VP_CHECK(c, r == 0, "clone-result", "assigning a handle to itself returned %d", r);
+        c.label("nested:self-clone");
+        sync("self clone");
+        return;
+      }
+      default: {  // set a range from elements of the own buffer (disjoint, inside the capacity, private buffer: nothing moves)
+        if (flags_of(x.b()) & (BufferShared | BufferImmutable)) return;
+        if (n < 1) return;
+        size_t k = c.range(1, n > 3 ? 3 : n), from = c.range(0, n - k);
+        size_t cap = x.b()->size / S;
+        // target behind or in front of the source range without overlap
+        size_t pos = c.flip() ? from + k + c.range(0, 2) : (from >= k ? c.range(0, from - k) : from + k);
+        if (pos + k > cap || (pos < from + k && from < pos + k)) return;
+        c.logf("set h%d: %zu element(s) at %zu copied from its own elements at %zu (length %zu)", hi, k, pos, from, n);
+        std::vector<uint32_t> sv(x.vals.begin() + from, x.vals.begin() + from + k);
+        void *ret = mpt_array_set(x.a, x.tr, k * S, slot(x.b(), from, S), (long)pos);
+        c.logf("  -> %s", ret ? "ok" : "refused");
+        obs.viol.raise(c, "set from own elements");
+        if (ret) {
+          if (x.vals.size() < pos + k) x.vals.resize(pos + k, 0);
+          for (size_t i = 0; i < k; i++) x.vals[pos + i] = sv[i];
+          if (pos < n) nontrivial = true;
+          c.label("nested:set-from-own-elements");
+        }
+        sync("set from own elements");
+        return;
+      }
+    }
+  }
+
   void step() {
     for (auto &x : h) x.relax = false;
     if (libkind && !strcmp(libkind->name, "command") && c.chance(64)) { op_command(); return; }
+    if (libkind && !strcmp(libkind->name, "array") && c.chance(72)) { op_nested(); return; }
     switch (c.weighted({7, 24, 12, 14, 6, 8, 3, 9, 10, 4, 3, 3})) {
       case 0: op_create(); break;
       case 1: op_set(); break;
@@ -956,7 +1119,10 @@ struct Sim {
       case 8: op_clone(); break;
       case 9: { Handle &x = pick_handle(); if (x.b()) op_release(x); break; }
       case 10: op_refusals(); break;
-      default: if (libkind && libkind->extra_op(c)) sync("harness reference dropped"); break;
+      default:
+        if (libkind && !strcmp(libkind->name, "array")) op_nested();
+        else if (libkind && libkind->extra_op(c)) sync("harness reference dropped");
+        break;
     }
   }
 
@@ -980,6 +1146,7 @@ static void run_c(Ctx &c, int kind) {
     case 3: s.libkind.reset(new MetaRefKind()); break;
     case 4: s.libkind.reset(new IdentKind()); break;
     case 5: s.libkind.reset(new CfgItemKind()); break;
+    case 12: s.libkind.reset(new MetaRefKind("inputref", mpt_input_reference_traits())); break;
     default: s.libkind.reset(new CommandKind()); break;
   }
   if (s.libkind) { s.primary = s.libkind.get(); s.other = s.tok24.get(); }
@@ -1466,7 +1633,7 @@ static void run_refarray(Ctx &c) {
   if (nontrivial) c.nontrivial();
 }
 
-static void run_itemarray(Ctx &c) {
+static void run_itemarray(Ctx &c, bool long_names = false) {
   typedef RObj<8> T;
   Obs obs;
   W = &obs;
@@ -1480,8 +1647,8 @@ static void run_itemarray(Ctx &c) {
   struct V { int r; int name; bool operator==(const V &o) const { return r == o.r && name == o.name; } };
   std::vector<V> vals[2];
   bool relax[2] = {false, false};
-  c.logf("C++ containers: item_array<counted object>");
-  c.label("item_array");
+  c.logf("C++ containers: item_array<counted object>%s", long_names ? " with names around the identifier limit" : "");
+  c.label(long_names ? "item_array:long-names" : "item_array");
   bool nontrivial = false;
   auto sync = [&](const char *op) {
     obs.viol.raise(c, op);
@@ -1502,6 +1669,15 @@ static void run_itemarray(Ctx &c) {
         VP_CHECK(c, r || !it->instance(), "dead-element-in-buffer", "after %s: handle %d: item %zu holds an unknown pointer", op, i, e);
         VP_CHECK(c, !r || !table[obj[r].get()].destroyed, "dead-element-in-buffer", "after %s: handle %d: item %zu references object #%d which was already destroyed", op, i, e, r);
         uint32_t nm = name_index(static_cast<identifier *>(it));
+        if (nm == UINT32_MAX && it->_len > 40) {  // long name of the long_names scenario: identified by its length
+          const char *txt = (const char *)mpt_identifier_data(it);
+          bool ok = txt != 0;
+          for (size_t q = 0; ok && q + 1 < it->_len; q += 997) ok = txt[q] == 'n';
+          VP_CHECK(c, ok, "dead-element-in-buffer", "after %s: handle %d: item %zu has a damaged long name", op, i, e);
+          got.push_back(V{r, -(int)(it->_len - 1)});
+          if (first) cnt[r]++;
+          continue;
+        }
         VP_CHECK(c, nm <= NNames, "dead-element-in-buffer", "after %s: handle %d: item %zu has %s", op, i, e, nm == UINT32_MAX - 1 ? "an identifier that was already finalised" : "an unexpected name");
         got.push_back(V{r, (int)nm});
         if (first) cnt[r]++;
@@ -1536,7 +1712,23 @@ static void run_itemarray(Ctx &c) {
     relax[0] = relax[1] = false;
     int i = (int)c.pick(2);
     size_t n = vals[i].size();
-    switch (c.weighted({12, 5, 5, 4, 3, 3})) {
+    switch (long_names ? c.weighted({12, 5, 5, 4, 3, 3, 8}) : c.weighted({12, 5, 5, 4, 3, 3})) {
+      case 6: {  // append with a name around the identifier limit: a refused append must leave the caller's reference alone
+        int r = (int)c.range(0, R);
+        size_t len = c.near({65534, 65535, 65536, 300}, 65600);
+        if (len < 41) len += 41;  // short names belong to the other scenario
+        std::string name(len, 'n');
+        same(i);
+        c.logf("i%d.append(object #%d, name of %zu characters)  (length %zu)", i, r, len, n);
+        if (r) obj[r]->addref();
+        item<T> *it = h[i].append(r ? obj[r].get() : 0, name.c_str());
+        c.logf("  -> %s", it ? "ok" : "refused");
+        if (!it && r) obj[r]->unref();  // what the callers in the library do (layout::graph::add_axis, layout::bind)
+        if (it) { vals[i].push_back(V{r, -(int)len}); c.label("itemarray:append-long-name"); }
+        else { if (r) nontrivial = true; c.label("itemarray:append-name-refused"); }
+        sync("append with long name");
+        break;
+      }
       case 0: {  // append
         int r = (int)c.range(0, R), nm = (int)c.range(0, NNames);
         same(i);
@@ -1619,13 +1811,15 @@ static void run_itemarray(Ctx &c) {
 static void run(Ctx &c) {
   uint8_t sel = c.u8();
   // 0..6: C API with the element kind (tok16 tok24 array metaref ident cfgitem command); 7..: C++ containers
-  static const uint8_t map[32] = {0, 0, 0, 0, 0, 1, 1, 1, 2, 2, 2, 3, 3, 4, 4, 5, 5, 6, 6, 7, 7, 7, 7, 8, 8, 9, 9, 10, 10, 11, 11, 0};
+  // slots 30 and 31 (duplicates no corpus file used) were given to: item_array with names around the identifier limit, input references
+  static const uint8_t map[32] = {0, 0, 0, 0, 0, 1, 1, 1, 2, 2, 2, 3, 3, 4, 4, 5, 5, 6, 6, 7, 7, 7, 7, 8, 8, 9, 9, 10, 10, 11, 13, 12};
   switch (int k = map[sel % 32]) {
     case 7: { CxxSim<typed_array<CT>> s(c, "typed_array"); s.run(); break; }
     case 8: { CxxSim<unique_array<CT>> s(c, "unique_array"); s.run(); break; }
     case 9: run_refarray<8>(c); break;
     case 10: c.flip() ? run_refarray<4>(c) : run_refarray<24>(c); break;
     case 11: run_itemarray(c); break;
+    case 13: run_itemarray(c, true); break;
     default: run_c(c, k); break;
   }
 }
